@@ -229,10 +229,24 @@ CHECKS = {
              "LMTD clauses are decided under C20. " + ENGINE_NOTE,
         technique="solver-based symbolic execution of the real code (z3; power law as monotone uninterpreted function, annuity as rational identity)",
     ),
+    "C18": dict(
+        category="model_checking",
+        text="SimpleHeatPumpCycle.solve, the metrics, COP_h/COP_r and build_stream_collection (all three request orders as a solver "
+             "choice) are executed symbolically with evaporating/condensing temperature, superheat and subcooling as z3 reals. CoolProp's "
+             "compiled state object is replaced by uninterpreted state functions constrained by a listed contract of identities true for "
+             "every pure fluid (plus one stated domain assumption); per path: Q_cond = Q_evap + W, W > 0, COP_h = COP_r + 1, entropy "
+             "non-decreasing over compression and throttling, H3 = H2, saturation pressures, stream sets carry exactly the duties, are "
+             "monotone and order-independent. Every third path model is re-run on the real CoolProp library (water; ammonia in the "
+             "thorough tier) and must satisfy the same obligations.",
+        design_ref="5/C18",
+        note="'All refrigerants' is covered as 'any fluid satisfying the contract' (listed verbatim in the evidence); the numerical quality of "
+             "CoolProp, trans-critical cycles, the IHX (ihx_gas_dt > 0) and heat_pump_targeting.py (scipy optimisers) are outside. Compressor "
+             "efficiency and duty are concrete per case (the cycle is linear in the duty). " + ENGINE_NOTE,
+        technique="solver-based symbolic execution of the real code with the property library as uninterpreted functions + contract (z3 UF+LRA)",
+    ),
 }
 
 NOT_YET = {
-    "C18": "not applicable: every state point comes from CoolProp's compiled AbstractState; an uninterpreted equation-of-state contract that is both true for every refrigerant and strong enough for the second-law clauses could not be stabilised (impossible-fluid countermodels are not replayable); see DESIGN.md section 8",
 }
 
 
